@@ -239,7 +239,13 @@ impl<'a> ListStylist<'a> {
                     self.can_attach = false;
                     if let Some(nl) = self.keep_linebreak {
                         if newline_cnt >= 2 && !self.items.is_empty() {
-                            self.items.push(Item::Linebreak((newline_cnt - 1).min(nl)));
+                            let n = (newline_cnt - 1).min(nl);
+                            if let Some(Item::Linebreak(prev)) = self.items.last_mut() {
+                                // Blank lines on both sides of a comma form one run.
+                                *prev = (*prev + n).min(nl);
+                            } else {
+                                self.items.push(Item::Linebreak(n));
+                            }
                         }
                     }
                 }
